@@ -52,6 +52,11 @@ func (e *HTTPErrorExpr) Validate() *eval.ValidationErrors {
 		ee = Root.Error(e.Name)
 	}
 
+	if ee == nil {
+		// error reported above
+		return verr
+	}
+
 	// validate headers
 	if e.Response.Headers != nil && !e.Response.Headers.IsEmpty() {
 		verr.Merge(e.Response.Headers.Validate("HTTP error response headers", e.Response))
